@@ -67,3 +67,32 @@ _add(PropertySpec(
     assumptions=[A_REAL, 'TI holds for the table handed to metar_msg (established by metarize)',
                  'the meaning of the flag (more than MAX_HITS_OKTA0 hits cropped) is the postcondition of _cleanup_pdf, see C07'],
 ))
+
+
+def _b_c03(run):
+    from bounded import c03
+    return c03.bounded(run)
+
+
+_add(PropertySpec(
+    'C03', 'other',
+    functions=['ampycloud.data.CeiloChunk._calculate_cloud_amount', 'ampycloud.data.CeiloChunk.metarize',
+               'ampycloud.wmo.perc2okta', 'ampycloud.wmo.okta2code'],
+    lemmas=['cnt_frame', 'prop.C03.mono', 'prop.C03.range', 'prop.C18.nm.zero', 'prop.C18.nm.eight', 'prop.C18.nm.range',
+            'prop.C18.mono_v', 'prop.C18.mono_nm'],
+    bounded=_b_c03,
+    explanation=('PROVED (P): _calculate_cloud_amount is symbolically executed from its real AST with a loop invariant over the table rows: '
+                 'for every set the okta cell equals okta_of(count, total, MAX_HITS_OKTA0, MAX_HOLES_OKTA8) (0 / 8 buffers, else the WMO '
+                 'binning), is a Python int in 0..8, perc = count/total*100; metarize (real AST) carries the rule through the sort to the '
+                 'final table and sets code = abbr(okta) ++ height code; monotonicity in the count and the range are lemmas over okta_of. '
+                 'ASSUMED + BOUNDED (B): that the counting expression yields the number of distinct (ceilo, dt) measurements is the '
+                 'library meaning of the np.unique / boolean-mask idiom; the expression is pinned by its exact AST (a change makes the '
+                 'check UNDECIDED) and the clause is checked by recounting with Python sets on the scene grammar.'),
+    assumptions=[A_REAL, 'hit-count expression (np.unique over masks) = number of distinct (ceilo, dt) measurements: assumed, bounded stand-in only',
+                 'contracts of _setup_sligrolay_pdf / _calculate_sligrolay_base_height / _add_sligrolay_information are assumed at their call sites in metarize'],
+    not_decided=['the counting clause for all inputs (library semantics; bounded only)'],
+))
+
+# metarize establishes the table invariant that C01 / C02 rely on
+SPECS['C01'].functions += ['ampycloud.data.CeiloChunk.metarize', 'ampycloud.data.CeiloChunk._calculate_cloud_amount']
+SPECS['C02'].functions += ['ampycloud.data.CeiloChunk.metarize']
